@@ -153,8 +153,48 @@ class C16(Spec):
                "thorough": {"wall": 1200, "max_runs": 10 ** 9, "chunk": 10}}
 
 
+class C20(Spec):
+    engines = ["jit", "py"]
+    warm_runs = 30
+    components = dict(Spec.components, real=Spec.components["real"] + [
+        "the same sources interpreted (NUMBA_DISABLE_JIT=1) as second replica", "pytransform3d transform managers"])
+    rule = ("one run = one plan (a stateful history from Worlds T/K/R/H or a flat corpus of calls of public jitted "
+            "functions, World E) executed in two engine replicas - numba-compiled as installed and interpreted with "
+            "NUMBA_DISABLE_JIT=1 - whose journals are compared op by op (outcome class and exception type first, then "
+            "values under per-kind comparators with the don't-care bands of the respective properties); non-trivial = "
+            "at least two ops completed in both replicas; distinct = distinct plan signatures")
+    assumptions = [
+        "closed-form results are compared to 1e-9 relative, iterative ones within the accuracy of C01/C07-C09, "
+        "booleans only outside the 1e-3*L clearance band, AABB set results only when no box pair is within 1e-9*L of "
+        "touching; MPR depth and the EPA vector are not compared (they depend on ulp-level ties between vertices)",
+        "closest points of primitive distance functions are compared only for non-degenerate (seeded generic) placements",
+        "a clean batch is evidence, not proof (seeded sampling)",
+    ]
+    budgets = {"quick": {"wall": 90, "max_runs": 10 ** 9, "chunk": 6},
+               "thorough": {"wall": 1500, "max_runs": 10 ** 9, "chunk": 6}}
+
+    def stats(self, plan, jrs):
+        return self.world.stats(plan, jrs)
+
+    def evaluate(self, lane, plan, **kw):
+        ja = lane.run(plan, engine="jit", **kw)
+        jb = lane.run(plan, engine="py", **kw)
+        vs = []
+        for eng, j in (("jit", ja), ("py", jb)):
+            if j["end"] == "hang":
+                vs += [dict(v, oracle="X.hang") for v in self.end_violations(plan, j, eng)]
+        if not vs:
+            try:
+                vs = self.world.compare(plan, ja, jb)
+            except RuntimeError as e:
+                from .runner import HarnessError
+                raise HarnessError(str(e))
+        return vs, [ja, jb]
+
+
 _SPECS = {
     "C03": (C03, "K"),
+    "C20": (C20, "X"),
     "C16": (C16, "H"),
     "C06": (C06, "R"),
     "C05": (C05, "T"),
